@@ -83,7 +83,7 @@ def scenarios(draw, component=None):
             P.update(max_steps=draw(st.integers(2, 8)))
     elif comp == "implicit":
         P.update(events=draw(st.lists(st.sampled_from(["a", "b", "cc", "ddd", 1, 2, 30]), min_size=2, max_size=5, unique=True)),
-                 n=draw(st.integers(5, 30)))
+                 n=draw(st.integers(5, 30)), pred=draw(st.sampled_from(["bool", "int", "frac", "frac0"])))
     return scn
 
 
